@@ -125,6 +125,24 @@ CLAIMED = {
             "Parameter typings limited to int / MalType / error-interface; registration with illegal declarations (bounds on a "
             "non-variadic function) is not exercised (the binder panics by design at registration).",
             "§8 C20"),
+    "C08": ("The definition layer carries the tail-call discipline (Def.tla st.depth: tail positions keep the depth, every "
+            "other sub-evaluation is one level deeper); TLC enumerates every loop shape (nests of tail constructs, with and "
+            "without one non-tail construct, over 1..3 mutually recursive functions), asserts on the model that tail shapes "
+            "are constant and controls grow, and predicts the sign of every depth difference; the real host stack depth at "
+            "each probe call is compared, and long runs of the tail shapes must stay constant",
+            "Exhaustive over nests of depth <= 2 (quick, 3.8k loops) / <= 3 (thorough, ~30k), 4 iterations each, plus "
+            "60/400 long runs (10^3..3*10^5 iterations).",
+            "Absolute depths are not compared (only signs of differences): a refactor adding a constant number of frames is "
+            "not an alarm; trusts runtime.Callers.",
+            "§8 C08"),
+    "C18": ("Def.tla gives each program's outcome and the SET of (form, visible bindings) pairs its evaluation visits "
+            "(quasiquote through the rewrite as coded, QQRewrite); TLC enumerates programs of three grammars; the real code "
+            "runs each program without a stepper and under every cyclic command script up to a length bound (separate "
+            "processes: the stepper is process-wide state), comparing outcome and every callback argument with the model",
+            "Exhaustive: 612 programs x 85 (quick) / ~2.4k programs x 341 (thorough) stepper scripts.",
+            "Scripts are cyclic sequences (the callback's answer depends only on how many times it was called); the "
+            "interactive debugger engine (keyboard) is not driven.",
+            "§8 C18"),
 }
 
 NOT_YET = "check not built yet in this round (planned in DESIGN.md §8; the specification module exists or is in progress)"
